@@ -195,6 +195,13 @@ Proof. intros. unfold fired. now rewrite flat_map_app. Qed.
 Lemma fired_nil : fired [] = [].
 Proof. reflexivity. Qed.
 
+(* the apply_command_response messages sent, in order: (dst, request id, ok, a, b) *)
+Definition aresps (os : list out) : list (nid * N * bool * N * N) :=
+  flat_map (fun o => match o with Send d (ApplyResp q k a b) => [(d, q, k, a, b)] | _ => [] end) os.
+
+Lemma aresps_app : forall a b, aresps (a ++ b) = aresps a ++ aresps b.
+Proof. intros. unfold aresps. now rewrite flat_map_app. Qed.
+
 Definition nview (n : node) :=
   (queue n, wait_reply n, wait_commit n, hist n, applied n, enabled_ver n, self_ver n, local_ctr n,
    log n, stored (sr n)).
@@ -203,19 +210,20 @@ Definition nview (n : node) :=
 Definition view_of (s : S) :=
   (queue (nd s), wait_reply (nd s), wait_commit (nd s), hist (nd s), applied (nd s),
    enabled_ver (nd s), self_ver (nd s), local_ctr (nd s), fired (outs s),
-   log (nd s), stored (sr (nd s))).
+   log (nd s), stored (sr (nd s)), aresps (outs s)).
 
 Lemma view_of_eq : forall s s', nview (nd s) = nview (nd s') -> fired (outs s) = fired (outs s') ->
-  view_of s = view_of s'.
-Proof. unfold view_of, nview. intros s s' H F. injection H as -> -> -> -> -> -> -> -> -> ->. now rewrite F. Qed.
+  aresps (outs s) = aresps (outs s') -> view_of s = view_of s'.
+Proof. unfold view_of, nview. intros s s' H F A. injection H as -> -> -> -> -> -> -> -> -> ->. now rewrite F, A. Qed.
 
 Lemma view_inv : forall s s', view_of s = view_of s' ->
   queue (nd s) = queue (nd s') /\ wait_reply (nd s) = wait_reply (nd s') /\
   wait_commit (nd s) = wait_commit (nd s') /\ hist (nd s) = hist (nd s') /\
   applied (nd s) = applied (nd s') /\ enabled_ver (nd s) = enabled_ver (nd s') /\
   self_ver (nd s) = self_ver (nd s') /\ local_ctr (nd s) = local_ctr (nd s') /\
-  fired (outs s) = fired (outs s') /\ log (nd s) = log (nd s') /\ stored (sr (nd s)) = stored (sr (nd s')).
-Proof. unfold view_of. intros s s' H. injection H. auto 14. Qed.
+  fired (outs s) = fired (outs s') /\ log (nd s) = log (nd s') /\ stored (sr (nd s)) = stored (sr (nd s')) /\
+  aresps (outs s) = aresps (outs s').
+Proof. unfold view_of. intros s s' H. injection H. auto 16. Qed.
 
 (* the same without the log and the stored snapshot *)
 Definition snview (n : node) :=
@@ -223,24 +231,24 @@ Definition snview (n : node) :=
 
 Definition sview_of (s : S) :=
   (queue (nd s), wait_reply (nd s), wait_commit (nd s), hist (nd s), applied (nd s),
-   enabled_ver (nd s), self_ver (nd s), local_ctr (nd s), fired (outs s)).
+   enabled_ver (nd s), self_ver (nd s), local_ctr (nd s), fired (outs s), aresps (outs s)).
 
 Lemma sview_of_eq : forall s s', snview (nd s) = snview (nd s') -> fired (outs s) = fired (outs s') ->
-  sview_of s = sview_of s'.
-Proof. unfold sview_of, snview. intros s s' H F. injection H as -> -> -> -> -> -> -> ->. now rewrite F. Qed.
+  aresps (outs s) = aresps (outs s') -> sview_of s = sview_of s'.
+Proof. unfold sview_of, snview. intros s s' H F A. injection H as -> -> -> -> -> -> -> ->. now rewrite F, A. Qed.
 
 Lemma sview_inv : forall s s', sview_of s = sview_of s' ->
   queue (nd s) = queue (nd s') /\ wait_reply (nd s) = wait_reply (nd s') /\
   wait_commit (nd s) = wait_commit (nd s') /\ hist (nd s) = hist (nd s') /\
   applied (nd s) = applied (nd s') /\ enabled_ver (nd s) = enabled_ver (nd s') /\
   self_ver (nd s) = self_ver (nd s') /\ local_ctr (nd s) = local_ctr (nd s') /\
-  fired (outs s) = fired (outs s').
+  fired (outs s) = fired (outs s') /\ aresps (outs s) = aresps (outs s').
 Proof. unfold sview_of. intros s s' H. injection H. auto 12. Qed.
 
 Lemma view_sview : forall s s', view_of s = view_of s' -> sview_of s = sview_of s'.
 Proof.
-  intros s s' H. apply view_inv in H as (H1 & H2 & H3 & H4 & H5 & H6 & H7 & H8 & H9 & _).
-  unfold sview_of. now rewrite H1, H2, H3, H4, H5, H6, H7, H8, H9.
+  intros s s' H. apply view_inv in H as (H1 & H2 & H3 & H4 & H5 & H6 & H7 & H8 & H9 & _ & _ & H12).
+  unfold sview_of. now rewrite H1, H2, H3, H4, H5, H6, H7, H8, H9, H12.
 Qed.
 
 (* a helper that neither touches the callback tables / user state nor fires a callback *)
@@ -249,12 +257,14 @@ Definition quiet (f : S -> S) : Prop := forall s, view_of (f s) = view_of s.
 Lemma view_upd : forall f s, nview (f (nd s)) = nview (nd s) -> view_of (upd f s) = view_of s.
 Proof. intros. apply view_of_eq; auto. Qed.
 
-Lemma view_emit : forall o s, fired [o] = [] -> view_of (emit o s) = view_of s.
+Lemma view_emit : forall o s, fired [o] = [] -> aresps [o] = [] -> view_of (emit o s) = view_of s.
 Proof.
-  intros o s H. apply view_of_eq; auto. cbn. rewrite fired_app, H. now rewrite app_nil_r.
+  intros o s H A. apply view_of_eq; auto; cbn.
+  - rewrite fired_app, H. now rewrite app_nil_r.
+  - rewrite aresps_app, A. now rewrite app_nil_r.
 Qed.
 
-Lemma view_send : forall d m s, view_of (send d m s) = view_of s.
+Lemma view_send : forall d m s, aresps [Send d m] = [] -> view_of (send d m s) = view_of s.
 Proof. intros. unfold send. destruct (smem d (tconn (nd s))); auto. now apply view_emit. Qed.
 
 Lemma view_raise : forall c s, view_of (raise c s) = view_of s.
@@ -268,7 +278,7 @@ Proof.
 Qed.
 
 Lemma view_send_next_idx : forall d nx r su s, view_of (send_next_idx d nx r su s) = view_of s.
-Proof. intros. unfold send_next_idx. apply view_send. Qed.
+Proof. intros. unfold send_next_idx. now apply view_send. Qed.
 
 Lemma view_fold : forall {A} (f : S -> A -> S) (l : list A),
   (forall a s, view_of (f s a) = view_of s) -> forall s, view_of (fold_left f l s) = view_of s.
@@ -320,7 +330,7 @@ Definition cview_of (s : S) :=
 
 Lemma sview_cview : forall s s', sview_of s = sview_of s' -> cview_of s = cview_of s'.
 Proof.
-  intros s s' H. apply sview_inv in H as (H1 & H2 & H3 & H4 & H5 & H6 & H7 & H8 & H9).
+  intros s s' H. apply sview_inv in H as (H1 & H2 & H3 & H4 & H5 & H6 & H7 & H8 & H9 & _).
   unfold cview_of. now rewrite H1, H2, H3, H7, H8, H9.
 Qed.
 
@@ -389,7 +399,7 @@ Qed.
 Lemma view_send_pieces : forall fuel x e prev b pos s, view_of (send_pieces fuel x e prev b pos s) = view_of s.
 Proof.
   induction fuel as [|f IH]; intros; cbn [send_pieces]; auto.
-  destruct (psize e <=? pos); auto. rewrite IH. apply view_send.
+  destruct (psize e <=? pos); auto. rewrite IH. now apply view_send.
 Qed.
 
 Lemma view_ae_body : forall e x next s, view_of (fst (ae_body e x next s)) = view_of s.
@@ -399,20 +409,20 @@ Proof.
   - destruct (next <=? last_idx (log (nd s))).
     + match goal with |- context [get_entries ?l ?a ?b ?c] => generalize (get_entries l a b c) end.
       intros es. destruct es as [|e1 [|e2 r]]; cbn [fst].
-      * rewrite view_send. now apply view_upd.
+      * rewrite view_send by reflexivity. now apply view_upd.
       * destruct (batch (cf e) <=? csz (ecmd e1)); cbn [fst].
         -- rewrite view_send_pieces. now apply view_upd.
-        -- rewrite view_send. now apply view_upd.
-      * rewrite view_send. now apply view_upd.
-    + cbn [fst]. apply view_send.
+        -- rewrite view_send by reflexivity. now apply view_upd.
+      * rewrite view_send by reflexivity. now apply view_upd.
+    + cbn [fst]. now apply view_send.
   - destruct (get_transmission e x s) as [s1 td] eqn:G.
     assert (V : view_of s1 = view_of s) by (change s1 with (fst (s1, td)); rewrite <- G; apply view_get_transmission).
     destruct td as [|b off len first last]; cbn [fst].
-    + now rewrite view_send.
+    + now rewrite view_send by reflexivity.
     + destruct last; cbn [fst].
       * destruct (log (nd (send x (AESnap (term (nd s)) (commit (nd s)) (SData b off len first true)) s1))) as [|a [|e1 r]]; cbn [fst];
-          rewrite ?view_raise; try (rewrite view_upd by reflexivity); now rewrite view_send.
-      * now rewrite view_send.
+          rewrite ?view_raise; try (rewrite view_upd by reflexivity); now rewrite view_send by reflexivity.
+      * now rewrite view_send by reflexivity.
 Qed.
 
 Lemma view_ae_loop : forall fuel e start x single ser_ s, view_of (ae_loop fuel e start x single ser_ s) = view_of s.
@@ -554,7 +564,7 @@ Definition uview_of (s : S) := (hist (nd s), applied (nd s), enabled_ver (nd s),
 
 Lemma sview_uview : forall s s', sview_of s = sview_of s' -> uview_of s = uview_of s'.
 Proof.
-  intros s s' H. apply sview_inv in H as (H1 & H2 & H3 & H4 & H5 & H6 & H7 & H8 & H9).
+  intros s s' H. apply sview_inv in H as (H1 & H2 & H3 & H4 & H5 & H6 & H7 & H8 & H9 & _).
   unfold uview_of. now rewrite H4, H5, H6, H7.
 Qed.
 
@@ -566,12 +576,22 @@ Lemma uview_inv : forall s s', uview_of s = uview_of s' ->
   enabled_ver (nd s) = enabled_ver (nd s') /\ self_ver (nd s) = self_ver (nd s').
 Proof. unfold uview_of. intros s s' H. injection H. auto. Qed.
 
-Lemma sview_split : forall s s', cview_of s = cview_of s' -> uview_of s = uview_of s' -> sview_of s = sview_of s'.
+Lemma sview_split : forall s s', cview_of s = cview_of s' -> uview_of s = uview_of s' ->
+  aresps (outs s) = aresps (outs s') -> sview_of s = sview_of s'.
 Proof.
-  intros s s' C U. apply cview_inv in C as (C1 & C2 & C3 & C4 & C5 & C6).
+  intros s s' C U A. apply cview_inv in C as (C1 & C2 & C3 & C4 & C5 & C6).
   apply uview_inv in U as (U1 & U2 & U3 & U4).
-  unfold sview_of. now rewrite C1, C2, C3, C4, C6, U1, U2, U3, U4.
+  unfold sview_of. now rewrite C1, C2, C3, C4, C6, U1, U2, U3, U4, A.
 Qed.
+
+Lemma cview_send : forall d m s, cview_of (send d m s) = cview_of s.
+Proof.
+  intros. unfold send. destruct (smem d (tconn (nd s))); auto.
+  unfold cview_of. cbn. rewrite fired_app. destruct m; cbn; now rewrite app_nil_r.
+Qed.
+
+Lemma uview_send : forall d m s, uview_of (send d m s) = uview_of s.
+Proof. intros. unfold send. destruct (smem d (tconn (nd s))); reflexivity. Qed.
 
 (* ---- sorted association lists (wait_commit, wait_reply are kept sorted by aset/adel) ---- *)
 Fixpoint asorted {V} (lo : option N) (l : list (N * V)) : Prop :=
